@@ -32,7 +32,8 @@ TRf ==
        <<"C04-subdirectory-name", ~SubdirNameOK(E)>>,
        <<"C04-continuous-file-window", E.cont /\ (~CeilIs(E.first, E.name, E.n, E.d, K1000)
                                                   \/ ~CeilIs(Add(E.last, One), endms, E.n, E.d, K1000))>>,
-       <<"C04-index-in-two-files", E.overlap>>}))
+       <<"C04-index-in-two-files", E.overlap>>,
+       <<"C04-valid-write-next-to-a-file-boundary-refused", Has(E, "raised") /\ E.raised>>}))
 
 \* a metadata sample k stored by the writer in file <prefix>@T.h5 of subdirectory `sub`; found: the reader returned it for read(k, k)
 TMd ==
